@@ -8,7 +8,7 @@
 From Coq Require Import ZArith List Bool.
 Import ListNotations.
 From TF Require Import Lib.GoInt Lib.Bytes Gen.Geometry Model.CRC Model.Sidecar Model.Resume.
-From TF Require Import Proofs.CRC Proofs.Sidecar Proofs.Resume Proofs.Geometry.
+From TF Require Import Proofs.CRC Proofs.Sidecar Proofs.Resume Proofs.Geometry Proofs.ResumeFile.
 Open Scope Z_scope.
 
 (* what Flush writes is what LoadSidecar returns *)
@@ -122,6 +122,35 @@ Theorem C06_repair_detected : forall h rq d src tail br hi total p,
 Proof. exact repair_detected. Qed.
 Print Assumptions C06_repair_detected.
 
+(* ... and once every frame the sender emitted has been written, the file is the
+   source byte for byte: the damaged chunk was detected, sent again, and every
+   other chunk was either recorded and intact or sent in the main pass.  (For
+   all sizes, chunk sizes, bitmaps, verification tails and hash functions that
+   tell the damaged chunk from the source's.) *)
+Theorem C06_repair_file_identical : forall h rq d src tail br hi o,
+  geom_dom (rq_size rq) (rq_cs rq) -> 0 < rq_size rq -> zlen src = rq_size rq ->
+  (forall x, d_primary d = Some x -> bytes_ok x) -> (forall x, d_fallback d = Some x -> bytes_ok x) ->
+  recv_begin h rq d = Ret br -> rq_alg rq <> 0 ->
+  highest_set (sc_bitmap (br_sc br)) (sc_total (br_sc br)) = Some hi ->
+  h (chunk_at (rq_cs rq) (br_file br) hi) <> h (chunk_at (rq_cs rq) src hi) ->
+  h (chunk_at (rq_cs rq) (br_file br) hi) <> hash_unknown ->
+  resume_outcome h rq d src tail false = Ret o ->
+  (forall i, 0 <= i < br_total br -> i <> hi -> bit_get (sc_bitmap (br_sc br)) (br_total br) i = true ->
+     chunk_at (rq_cs rq) (br_file br) i = chunk_at (rq_cs rq) src i) ->
+  o_resent o = Some hi /\ o_file o = src.
+Proof. exact resume_repairs. Qed.
+Print Assumptions C06_repair_file_identical.
+
+(* metadata that was not loaded never causes data to be skipped: the file is the
+   source whatever the data file held before *)
+Theorem C06_untrusted_file_identical : forall h rq d src tail vnone br o,
+  geom_dom (rq_size rq) (rq_cs rq) -> zlen src = rq_size rq ->
+  recv_begin h rq d = Ret br -> br_loaded br = false ->
+  resume_outcome h rq d src tail vnone = Ret o ->
+  o_file o = src.
+Proof. exact resume_identical_unloaded. Qed.
+Print Assumptions C06_untrusted_file_identical.
+
 (* PARTIAL: the repair is applied if the re-sent frame reaches the receiver while
    the file is still open (any arrival order of the other frames) *)
 Theorem C06_repair_applied_partial : forall s evs1 evs2 i,
@@ -147,6 +176,13 @@ Example C06_repair_applied_refuted :
   let s := rrun (rinit [true] 0) [REnd; RChunk 0] in
   r_done s = true /\ r_written s = [] /\ r_dropped s = [0].
 Proof. split; [eexists; vm_compute; repeat split; reflexivity|vm_compute; repeat split; reflexivity]. Qed.
+
+(* non-vacuity of C06_repair_file_identical on the same witness: with the frame
+   written before finalisation the file is repaired *)
+Example C06_repair_file_example :
+  exists o, resume_outcome crc32c (mkRq [97] 5 8 1) (mkDisk (Some w_disk) (Some (serialise w_sc)) None) w_src 0 false = Ret o /\
+            o_resent o = Some 0 /\ o_file o = w_src.
+Proof. eexists. vm_compute. repeat split; reflexivity. Qed.
 
 Theorem C06_late_frame_dropped : forall s evs1 i,
   r_done (rrun s evs1) = true ->
